@@ -19,6 +19,7 @@ import (
 	"encoding/hex"
 	"encoding/json"
 	"fmt"
+	"path/filepath"
 	"strings"
 
 	"verif/internal/b2fx"
@@ -213,6 +214,10 @@ func plan(seed int64, tier string) []vrt.Case {
 			sess = append(sess, mboxkit.Op{Kind: "session", MID: []byte(fmt.Sprintf("HDS%d", hi)), Arg: mustArg(b2fx.SessionJailArg{HeaderMID: []byte(fmt.Sprintf("HDS%d", hi)), LibMaster: hi%2 == 0, Extra: extra}), Note: "header:" + strings.ToLower(hn) + "/session"})
 		}
 	}
+	// the handler value pointed at another mailbox directory (history, independent of remote content)
+	for i := 0; i < 6; i++ {
+		sess = append(sess, mboxkit.Op{Kind: "reconfigured", MID: []byte(fmt.Sprintf("RECONF%d", i)), Note: "reconfigured"})
+	}
 	for lo := 0; lo < len(sess); lo += 12 {
 		cs = append(cs, vrt.Case{ID: fmt.Sprintf("session-%d", lo), TimeoutS: 900, Params: vrt.MustParams(params{Ops: sess[lo:min(lo+12, len(sess))]})})
 	}
@@ -293,6 +298,23 @@ func Judge(o *vrt.Obs, res mboxkit.Result) {
 			kind += "(parsed)"
 		}
 		o.Sig("%s|%s", kind, hex.EncodeToString(r.Op.MID))
+		if r.Op.Kind == "reconfigured" {
+			// during this call the configured mailbox was <parent>/mbox2: changes there are the job, changes in
+			// the directory configured before (or anywhere else) are not
+			other := strings.TrimPrefix(filepath.Join(filepath.Dir(mboxkit.JailMbox), "mbox2"), "/") + "/"
+			var stray []string
+			for _, e := range r.Escapes {
+				if !strings.HasPrefix(e.Path, other) && e.Path+"/" != other {
+					stray = append(stray, e.What+" /"+e.Path)
+				}
+			}
+			o.Count("reconfigured_handler_histories", 1)
+			if r.Inside > 0 || len(stray) > 0 {
+				v := o.Violate("escape:reconfigured", "after MBoxPath was pointed at another mailbox, %d file(s) of the previously configured mailbox were touched and these paths outside the new one changed: %v (call result: %s)", r.Inside, stray, r.Ret)
+				v.Detail = map[string]any{"op": r.Op, "changes": r.Escapes, "touched_in_previous_mailbox": r.Inside}
+			}
+			continue
+		}
 		if len(r.Escapes) == 0 {
 			continue
 		}
